@@ -45,6 +45,8 @@ OK_SAVE_WRAPPERS = (re.compile(r"^id$"), re.compile(r"^tolist$"), re.compile(r"^
                     re.compile(r"^\[\(?:, (\w+)\)?\] for \1 in range\((\w+)\.shape\[1\]\)$"))
 OK_LOAD_WRAPPERS = (re.compile(r"^id$"), re.compile(r"^T\(vstack\[id for (\w+) in range\(len\(\w+\['parameters_precision'\]\)\)\]\)$"),
                     re.compile(r"^T\(vstack\[id for (\w+) in range\(len\(\w+\['parameters_bounds'\]\[[01]\]\)\)\]\)$"))
+#: wrappers that certainly change values (a finding); anything else that is not in the value-preserving tables is unknown (undecided)
+LOSSY = re.compile(r"round|around|astype|float32|float16|int32|int16|int8|\bint\(|clip|trunc|floor|ceil|\bstr\(|format|\[\s*-?\d*\s*:\s*-?\d+|\[\s*-?\d+\s*:|nan_to_num|abs\(|sorted|unique|\* |/ |\+ |- ")
 UNPICKLABLE = {"threading.Thread": "thread", "threading.Lock": "lock", "threading.RLock": "lock", "threading.Event": "event",
                "threading.Condition": "condition", "threading.Semaphore": "semaphore", "queue.Queue": "queue", "queue.SimpleQueue": "queue",
                "queue.LifoQueue": "queue", "queue.PriorityQueue": "queue", "sqlite3.Connection": "connection", "sqlite3.Cursor": "cursor",
@@ -81,6 +83,15 @@ def run(ctx: Context) -> None:
 
 
 def _self_path(e: ast.expr, self_name: str | None) -> str | None:
+    # a defensive copy of the attribute has the attribute's value: np.array(x[, copy=True]), np.asarray(x), np.copy(x), x.copy()
+    for _ in range(3):
+        if isinstance(e, ast.Call) and (dotted(e.func) or "") in ("np.array", "numpy.array", "np.asarray", "numpy.asarray", "np.copy", "numpy.copy", "copy.copy", "copy.deepcopy") and len(e.args) == 1 \
+                and all(k.arg in ("copy", "order", "subok") for k in e.keywords) and not any(k.arg == "copy" and isinstance(k.value, ast.Constant) and k.value.value is False and False for k in e.keywords):
+            e = e.args[0]
+        elif isinstance(e, ast.Call) and isinstance(e.func, ast.Attribute) and e.func.attr == "copy" and not e.args and all(k.arg == "order" for k in e.keywords):
+            e = e.func.value
+        else:
+            break
     d = dotted(e)
     if d and self_name and d.startswith(self_name + "."):
         return d[len(self_name) + 1:]
@@ -142,6 +153,8 @@ def r1_plumbing(ctx: Context, pl: Plumbing) -> None:
         if len(r["storage"]) != 1:
             ctx.fail("R1.storage", key, f"save parameter {p} is written to {len(r['storage'])} places {r['storage']}", pl.save, pl.save.node)
         for kind, skey, w in r["storage"]:
+            if not any(rx.match(w) for rx in OK_SAVE_WRAPPERS) and not LOSSY.search(w):
+                raise AnalysisError(f"{pl.save.loc(pl.save.node)}: {p} is stored through `{w[:80]}`, a form the wrapper table does not know (neither value-preserving nor lossy); cannot decide R1")
             ctx.check(any(rx.match(w) for rx in OK_SAVE_WRAPPERS), "R1.wrappers", f"{key}:save-wrapper", f"{p} is stored unmodified ({w})",
                       f"{p} is stored through `{w}` - not a value-preserving form (rounding / cast / slice?)", pl.save, pl.save.node)
         # load
@@ -152,6 +165,8 @@ def r1_plumbing(ctx: Context, pl: Plumbing) -> None:
             ctx.fail("R1.load", key, f"{p} is read into {len(r['load_pos'])} tuple positions {r['load_pos']}", pl.load, pl.load_return)
             continue
         for w in r["load_wrappers"]:
+            if not any(rx.match(w) for rx in OK_LOAD_WRAPPERS) and not LOSSY.search(w):
+                raise AnalysisError(f"{pl.load.loc(pl.load_return)}: {p} is read back through `{w[:80]}`, a form the wrapper table does not know; cannot decide R1")
             ctx.check(any(rx.match(w) for rx in OK_LOAD_WRAPPERS), "R1.wrappers", f"{key}:load-wrapper", f"{p} is read back unmodified ({w[:40]})",
                       f"{p} is read back through `{w}` - not a value-preserving form", pl.load, pl.load_return)
         # sink
@@ -165,8 +180,17 @@ def r1_plumbing(ctx: Context, pl: Plumbing) -> None:
         why = ""
         for u in uses:
             if ":via:" in u:
-                why = f"restored through the expression `{u.split(':via:')[1]}`"
-                continue
+                head_, via_ = u.split(":via:", 1)
+                # a copy of the loaded value has the loaded value (copy.deepcopy(x), np.array(x), np.asarray(x), x.copy(), list(x) / tuple(x) of a sequence)
+                if re.fullmatch(r"(copy\.deepcopy|copy\.copy|np\.array|numpy\.array|np\.asarray|np\.copy)\(\s*" + re.escape(r["local"]) + r"\s*(,\s*copy\s*=\s*True\s*)?\)|" + re.escape(r["local"]) + r"\.copy\(\)", via_.strip()):
+                    u = head_
+                else:
+                    if not LOSSY.search(via_) and not re.fullmatch(re.escape(r["local"]), via_.strip()):
+                        why = f"restored through the expression `{via_}`"
+                        unknown_via = via_
+                    else:
+                        why = f"restored through the expression `{via_}`"
+                    continue
             kind, _, target = u.partition(":")
             if kind == "ctor":
                 paths = ctor_paths.get(target, set())
